@@ -95,4 +95,8 @@ def hi1 (c h : Rat) : Rat := c + h
 /-- `r` lies within `b` -/
 def Within (r b : Rect) : Prop := b.minX ≤ r.minX ∧ r.maxX ≤ b.maxX ∧ b.minY ≤ r.minY ∧ r.maxY ≤ b.maxY
 
+/-- `r` lies within `b` up to `tol` on every side -/
+def WithinTol (tol : Rat) (r b : Rect) : Prop :=
+  b.minX ≤ r.minX + tol ∧ r.maxX ≤ b.maxX + tol ∧ b.minY ≤ r.minY + tol ∧ r.maxY ≤ b.maxY + tol
+
 end AdaptaVerif.Spec.Compound
